@@ -821,12 +821,13 @@ class C16(Prop):
     id = "C16"
     module = "C16"
     theorems = ["C16_ssr_tables_ok", "C16_decode_bounded", "C16_decode_no_panic", "C16_counts_fit_1059", "C16_counts_fit_1065",
-                "C16_roundtrip_1059", "C16_roundtrip_1065"]
+                "C16_roundtrip_1059", "C16_roundtrip_1065", "C16_glo_order", "C16_roundtrip_1230"]
     partial_note = ("partial: decode never panics and never exceeds the list capacity; accepted lists have <= 63 satellites, <= 31 recognised entries per satellite and fit the "
                     "capacity; SSR tables one-to-one with 5-bit ids; for 1059 and 1065 every accepted list whose quantised biases fit their 14-bit field decodes to exactly its "
-                    "recognised entries, each once, grouped by ascending satellite, in list order within a satellite, bias on the 0.01 grid. The same for 1230 (needs the sort), "
-                    "biases beyond the 14-bit field (they wrap) and the frame wrapper are covered by the ROUNDTRIP correspondence and the probes")
-    table_obligations = ["ssr_tables_ok"]
+                    "recognised entries, each once, grouped by ascending satellite, in list order within a satellite, bias on the 0.01 grid; for 1230 every accepted list with pairwise distinct signals decodes to the same entries, "
+                    "each once, in mask order, bias on the 0.02 grid (saturating). Biases beyond the 14-bit field of 1059/1065 (they wrap) and the frame wrapper around "
+                    "the lists are covered by the ROUNDTRIP correspondence and the probes")
+    table_obligations = ["ssr_tables_ok", "glo_order"]
     rule = ("ROUNDTRIP of 1059/1065/1230 messages: 0..64 satellites, 0..40 entries per satellite, entries of one satellite scattered, all recognised signals, totals around 390, "
             "1230 lists in every order; DECODE of hostile frames with maximal per-satellite counts; non-trivial = distinct messages with at least two entries")
 
